@@ -85,7 +85,7 @@ postfix_expr:
 				yylex.Error(errLValue($2))
 			} else if n, ok := expand(yylex, $1); ok {
 				$$.n = n
-				yylex.(*lexer).env.Set($1.s, strconv.Itoa($$.n + 1))
+				assign(yylex, $1.s, $$.n + 1)
 			}
 		}
 	|	postfix_expr DEC
@@ -95,7 +95,7 @@ postfix_expr:
 				yylex.Error(errLValue($2))
 			} else if n, ok := expand(yylex, $1); ok {
 				$$.n = n
-				yylex.(*lexer).env.Set($1.s, strconv.Itoa($$.n - 1))
+				assign(yylex, $1.s, $$.n - 1)
 			}
 		}
 
@@ -108,7 +108,7 @@ unary_expr:
 				yylex.Error(errLValue($1))
 			} else if n, ok := expand(yylex, $2); ok {
 				$$.n = n + 1
-				yylex.(*lexer).env.Set($2.s, strconv.Itoa($$.n))
+				assign(yylex, $2.s, $$.n)
 			}
 		}
 	|	DEC      unary_expr
@@ -118,7 +118,7 @@ unary_expr:
 				yylex.Error(errLValue($1))
 			} else if n, ok := expand(yylex, $2); ok {
 				$$.n = n - 1
-				yylex.(*lexer).env.Set($2.s, strconv.Itoa($$.n))
+				assign(yylex, $2.s, $$.n)
 			}
 		}
 	|	unary_op unary_expr
@@ -291,7 +291,7 @@ expr:
 					$$, ok = calculate(yylex, $1, $2[:len($2)-1], $3)
 				}
 				if ok {
-					yylex.(*lexer).env.Set($1.s, strconv.Itoa($$.n))
+					assign(yylex, $1.s, $$.n)
 				}
 			}
 		}
@@ -382,6 +382,18 @@ func expand(yylex yyLexer, x expr) (int, bool) {
 		return 0, false
 	} else {
 		return int(n), true
+	}
+}
+
+// assign sets the variable name to n unless an error has already been
+// reported.
+func assign(yylex yyLexer, name string, n int) {
+	l := yylex.(*lexer)
+	l.mu.Lock()
+	err := l.err
+	l.mu.Unlock()
+	if err == nil {
+		l.env.Set(name, strconv.Itoa(n))
 	}
 }
 
